@@ -636,6 +636,7 @@ class IStream:
     already failed: nothing happens, x is NOT modified; sentry fails (end of input while skipping white space): fail and
     eof set, x NOT modified; parse error: x = 0, fail set (C++11); success: x = some value, eof may become set."""
     FAIL, EOF = 'ghost.is.fail', 'ghost.is.eof'
+    POS, TOK = 'ghost.is.pos', 'ghost.is.tok'
 
     @staticmethod
     def flags(st):
@@ -662,6 +663,13 @@ class IStream:
         sentry_ok, parse_ok = State.fresh('sentry_ok', z3.BoolSort()), State.fresh('parse_ok', z3.BoolSort())
         got = State.fresh('extracted', z3.RealSort() if ct.kind == 'float' else z3.IntSort())
         attempted = And(Not(fail), sentry_ok)
+        # optional token view of the input (units that say WHICH value of the file ends up where): the stream is a sequence of
+        # tokens TOK[0], TOK[1], ...; a successful extraction returns the token under the cursor and advances the cursor
+        if IStream.POS in st.scal and ct.kind == 'float':
+            pos = st.scal[IStream.POS].t
+            got = z3.Select(st.array(IStream.TOK, '', ct), pos)
+            st.scal[IStream.POS] = IntV(If(And(attempted, parse_ok), pos + 1, pos), parse_type_str('long'))
+            ex.logw(('s', IStream.POS))
         newval = If(parse_ok, got, 0)
         old = st.env.get(l.vid)
         oldinit = st.scal.get(f'init:{l.vid}')
